@@ -24,7 +24,8 @@ EXPLANATION = (
     "and recovery only accepts names that match it. Also: (R4) the collector's delete guard (shared with C05.R3) - a "
     "later collection removes only unreachable, unprotected, old files; (R5) a writer that died while holding the S3 "
     "lock does not wedge the table: taking over the expired lock IS acquiring it (shared with C19.R3)."
-    " (R6) the O_EXCL existence lock (not released when its holder dies) is reached only when neither fcntl nor msvcrt exists; (R7) an unparseable in-flight marker left by a dead writer falls back instead of aborting every later collection; (R8) the 'pointer moved' conflict of the CAS path is raised only on a parsed pointer (a creator that died before the first pointer write does not wedge the table).")
+    " (R6) the O_EXCL existence lock (not released when its holder dies) is reached only when neither fcntl nor msvcrt exists; (R7) an unparseable in-flight marker left by a dead writer falls back instead of aborting every later collection; (R8) the 'pointer moved' conflict of the CAS path is raised only on a parsed pointer (a creator that died before the first pointer write does not wedge the table)."
+    ' (R9/R10) write-once namespace and who-may-delete censuses (shared with C09.R1/R3): every file a dying process can leave is the pointer, a marker or a fresh name, and recovery / maintenance code never deletes on its own judgement.')
 NOT_DECIDED = ("the reopen-and-compare statement over every crash point; atomicity of os.replace / PUT; that a "
                "later collection removes only leftovers")
 
